@@ -151,7 +151,8 @@ def ata_args(draw, cmd, keep, full_width=False):
     if keep.get("blocksize") or want_bs:
         a["blocksize"] = bsz if bsz is not None else 512
     if keep.get("extra_tl") or (a["t_length"] == 3 and draw(st.booleans())):
-        a["extra_tl"] = draw(st.one_of(st.none(), st.integers(0, 64), fv(16, cap)))
+        # the TPSIU transfer length is not a CDB field: it may exceed 16 bits
+        a["extra_tl"] = draw(st.one_of(st.none(), st.integers(0, 64), fv(16, cap), fv(24, cap)))
     for k, wd in (("ck_cond", 1), ("device", 8), ("control", 8)):
         if keep.get(k):
             a[k] = draw(fv(wd))
